@@ -177,7 +177,7 @@ def replay(body):
 def run(ctx):
     rng = ctx.rng
     ctx.check_theorems()
-    ctx.check_generated(['crop', 'eval', 'k', 'kelev', 'klog'])
+    ctx.check_generated(['crop', 'eval', 'k', 'kelev', 'klog', 'kcalls'])
     # (K) model = implementation on translated pairs (small frames)
     items = []
     for k in range(ctx.n(8, 50)):
